@@ -758,12 +758,19 @@ def generate(seed, index):
             return {"abort_at": int(round(10 ** (xrng.random() * 3.6)))}
 
         new_setup = []
+        scan_cfgs = sorted({op["cfg"] for op in setup if op["op"] == "scan"})
         for op in setup:
             if op["op"] == "scan" and xrng.random() < 0.3:
-                new_setup.append({"op": "scan", "ev": "I" + op["ev"], "cfg": op["cfg"],
+                # the request that is cut short is this one or another one of the session
+                new_setup.append({"op": "scan", "ev": "I" + op["ev"],
+                                  "cfg": op["cfg"] if xrng.random() < 0.5 else xrng.choice(scan_cfgs),
                                   **({"order": op["order"]} if op.get("order") else {}), **_cut(False, True)})
                 n_interrupted += 1
             new_setup.append(op)
+        if len(new_setup) > len(setup):
+            # reference scans of every request before anything is cut short: what "absent from the
+            # architecture" means is also decided by these (ref=True: nothing is evaluated on them)
+            new_setup = [{"op": "scan", "ev": "REF" + cid, "cfg": cid, "ref": True} for cid in scan_cfgs] + new_setup
         setup = new_setup
         for c in range(nclients):
             out, built, cls_of = [], {}, {}
